@@ -16,13 +16,13 @@ START_FEASIBLE = [
     'implies(lower_bounds is not None and upper_bounds is not None, all(lower_bounds[i] <= upper_bounds[i] for i in range(n)))',
 ]
 WITHIN = [
-    'implies(lower_bounds is not None, all(lower_bounds[i] <= u._data[i] for i in range(n)))',
-    'implies(upper_bounds is not None, all(u._data[i] <= upper_bounds[i] for i in range(n)))',
+    'implies(lower_bounds is not None, all(le(lower_bounds[i], u._data[i]) for i in range(n)))',
+    'implies(upper_bounds is not None, all(le(u._data[i], upper_bounds[i]) for i in range(n)))',
 ]
 ALONG = [
     # not opposite to the Newton step, not beyond the full step
-    'all((u._data[i] - (old(u._data[i]) - alpha*old(du._data[i]))) * old(du._data[i]) >= 0 for i in range(n))',
-    'all(abs(u._data[i] - (old(u._data[i]) - alpha*old(du._data[i]))) <= abs(alpha*old(du._data[i])) for i in range(n))',
+    'all(le(0, (u._data[i] - (old(u._data[i]) - alpha*old(du._data[i]))) * old(du._data[i])) for i in range(n))',
+    'all(le(abs(u._data[i] - (old(u._data[i]) - alpha*old(du._data[i]))), abs(alpha*old(du._data[i]))) for i in range(n))',
 ]
 
 # a step that violates no bound is left alone (otherwise "never move" would satisfy the rest)
@@ -46,11 +46,29 @@ def native_kernel(vals, np, om):
                 upper_bounds=A(vals['upper_bounds'])), dict(n=n)
 
 
-contract(F + '::_enforce_bounds_vector', ['C10'], KERNEL_PARAMS,
+def kernel_sampler(rng):
+    """feasible start point u0 in [lb, ub], arbitrary step; the kernels see u = u0 + alpha*du"""
+    n = rng.choice([1, 2, 2, 3, 3, 4])
+    alpha = rng.choice([4, 8, 8, 16])            # in eighths
+    has_l, has_u = rng.choice([(True, True), (True, True), (True, False), (False, True), (False, False)])
+    lb = [rng.choice([-16, -8, 0, 0, 4]) for _ in range(n)]
+    ub = [l + rng.choice([0, 4, 8, 8, 16, 32]) for l in lb]
+    u0 = [rng.randint(l, u_) for l, u_ in zip(lb, ub)]
+    du = [rng.choice([-32, -16, -12, -6, -2, 0, 0, 3, 6, 10, 16, 24]) for _ in range(n)]
+    u = [a * 8 + alpha * d for a, d in zip(u0, du)]          # in 1/64
+
+    def arr(vals, den):
+        return {'__arr__': [{'__frac__': [v, den]} for v in vals], 'shape': [n], 'dtype': 'real'}
+    vec = lambda a: {'__obj__': 'DefaultVector', 'id': 0, 'attrs': {'_data': a, '_under_complex_step': False}}
+    return {'u': vec(arr(u, 64)), 'du': vec(arr(du, 8)), 'alpha': {'__frac__': [alpha, 8]},
+            'lower_bounds': arr(lb, 8) if has_l else None, 'upper_bounds': arr(ub, 8) if has_u else None}
+
+
+contract(F + '::_enforce_bounds_vector', ['C10'], KERNEL_PARAMS, sampler=kernel_sampler,
          requires=START_FEASIBLE,
          ensures=WITHIN + ALONG + NOOP + [
              # u and du stay consistent: u' = u0 + alpha*du'
-             'all(u._data[i] == (old(u._data[i]) - alpha*old(du._data[i])) + alpha*du._data[i] for i in range(n))',
+             'all(approx(u._data[i], (old(u._data[i]) - alpha*old(du._data[i])) + alpha*du._data[i]) for i in range(n))',
          ],
          modifies=['u._data', 'du._data'], inline=VEC_INLINE, native=native_kernel,
          canaries=[
@@ -59,10 +77,10 @@ contract(F + '::_enforce_bounds_vector', ['C10'], KERNEL_PARAMS,
              ('sign of the pull-back flipped', ('u.add_scal_vec(-d_alpha, du)', 'u.add_scal_vec(d_alpha, du)'), 'post'),
          ])
 
-contract(F + '::_enforce_bounds_scalar', ['C10'], KERNEL_PARAMS,
+contract(F + '::_enforce_bounds_scalar', ['C10'], KERNEL_PARAMS, sampler=kernel_sampler,
          requires=START_FEASIBLE,
          ensures=WITHIN + ALONG + NOOP + [
-             'all(u._data[i] == (old(u._data[i]) - alpha*old(du._data[i])) + alpha*du._data[i] for i in range(n))',
+             'all(approx(u._data[i], (old(u._data[i]) - alpha*old(du._data[i])) + alpha*du._data[i]) for i in range(n))',
          ],
          modifies=['u._data', 'du._data'], inline=VEC_INLINE, native=native_kernel,
          canaries=[
@@ -70,7 +88,7 @@ contract(F + '::_enforce_bounds_scalar', ['C10'], KERNEL_PARAMS,
              ('du correction not normalised by alpha', ('du += change / alpha', 'du += change'), 'post'),
          ])
 
-contract(F + '::_enforce_bounds_wall', ['C10'], KERNEL_PARAMS,
+contract(F + '::_enforce_bounds_wall', ['C10'], KERNEL_PARAMS, sampler=kernel_sampler,
          # call site (_enforce_bounds) is guarded by system._has_bounds: at least one bound array
          requires=START_FEASIBLE + ['lower_bounds is not None or upper_bounds is not None'],
          ensures=WITHIN + ALONG + NOOP + [
@@ -107,8 +125,8 @@ HAS = 'self._system()._has_bounds'
 
 
 def within(u):
-    return ['implies(%s and %s is not None, all(%s[i] <= %s[i] for i in range(n)))' % (HAS, LB, LB, u),
-            'implies(%s and %s is not None, all(%s[i] <= %s[i] for i in range(n)))' % (HAS, UB, u, UB)]
+    return ['implies(%s and %s is not None, all(le(%s[i], %s[i]) for i in range(n)))' % (HAS, LB, LB, u),
+            'implies(%s and %s is not None, all(le(%s[i], %s[i]) for i in range(n)))' % (HAS, UB, u, UB)]
 
 
 SETUP_INV = [  # what LinesearchSolver._setup_solvers establishes
@@ -140,8 +158,8 @@ contract(F + '::LinesearchSolver._enforce_bounds', ['C10'],
              'implies(%s and %s is not None, all(%s[i] <= %s[i] - alpha*step._data[i] for i in range(n)))' % (HAS, LB, LB, U),
              'implies(%s and %s is not None, all(%s[i] - alpha*step._data[i] <= %s[i] for i in range(n)))' % (HAS, UB, U, UB)],
          ensures=within(U) + [
-             'implies(%s, all((%s[i] - (old(%s[i]) - alpha*old(step._data[i]))) * old(step._data[i]) >= 0 for i in range(n)))' % (HAS, U, U),
-             'implies(%s, all(abs(%s[i] - (old(%s[i]) - alpha*old(step._data[i]))) <= abs(alpha*old(step._data[i])) for i in range(n)))' % (HAS, U, U),
+             'implies(%s, all(le(0, (%s[i] - (old(%s[i]) - alpha*old(step._data[i]))) * old(step._data[i])) for i in range(n)))' % (HAS, U, U),
+             'implies(%s, all(le(abs(%s[i] - (old(%s[i]) - alpha*old(step._data[i]))), abs(alpha*old(step._data[i]))) for i in range(n)))' % (HAS, U, U),
              'implies(not %s, all(%s[i] == old(%s[i]) and step._data[i] == old(step._data[i]) for i in range(n)))' % (HAS, U, U),
              'implies(all((%s is None or %s[j] <= old(%s[j])) and (%s is None or old(%s[j]) <= %s[j]) for j in range(n)), '
              'all(%s[i] == old(%s[i]) and step._data[i] == old(step._data[i]) for i in range(n)))' % (LB, LB, U, UB, U, UB, U, U)],
@@ -160,8 +178,8 @@ contract(F + '::BoundsEnforceLS._solve', ['C10'],
          requires=SETUP_INV + within(U),          # Newton iterate starts within bounds
          ensures=within(U) + [
              # no entry moves opposite to its Newton step or beyond the full step
-             'all((%s[i] - old(%s[i])) * old(self._system()._doutputs._data[i]) >= 0 for i in range(n))' % (U, U),
-             'all(abs(%s[i] - old(%s[i])) <= abs(old(self._system()._doutputs._data[i])) for i in range(n))' % (U, U),
+             'all(le(0, (%s[i] - old(%s[i])) * old(self._system()._doutputs._data[i])) for i in range(n))' % (U, U),
+             'all(le(abs(%s[i] - old(%s[i])), abs(old(self._system()._doutputs._data[i]))) for i in range(n))' % (U, U),
              'implies(not %s, all(%s[i] == old(%s[i]) + old(self._system()._doutputs._data[i]) for i in range(n)))' % (HAS, U, U),
              # a full step that violates no bound is taken unchanged
              'implies(all((%s is None or %s[j] <= old(%s[j]) + old(self._system()._doutputs._data[j])) and (%s is None or old(%s[j]) + old(self._system()._doutputs._data[j]) <= %s[j]) for j in range(n)), '
